@@ -19,6 +19,7 @@ package main
 // through print-and-reparse, and absence of panics on absent optional children.
 
 import (
+	"go/types"
 	"fmt"
 	"regexp"
 	"sort"
@@ -198,6 +199,38 @@ func (c *CheckCtx) checkFormatter(kinds []kindInfo) {
 			}
 		}
 	}
+	// cross-check for possible misses: every non-terminal alternative (also half-built carrier states) whose vertex slot is
+	// not known to be filled; what is in this larger set but not in maybeNil is listed in the evidence, per formatter site
+	allMaybe := map[string]string{}
+	for _, gn := range sortedKeys(runs) {
+		r := runs[gn]
+		if r == nil || r.Res == nil {
+			continue
+		}
+		for sym, ni := range r.Res.NTs {
+			var alts []*ntAlt
+			alts = append(alts, ni.Alts...)
+			alts = append(alts, ni.ElemAlts...)
+			for _, a := range alts {
+				if a == nil || a.T == nil || a.T.Obj().Pkg() == nil || a.T.Obj().Pkg().Name() != "ast" {
+					continue
+				}
+				st, ok := a.T.Underlying().(*types.Struct)
+				if !ok {
+					continue
+				}
+				for i := 0; i < st.NumFields(); i++ {
+					fld := st.Field(i)
+					if classifySlot(fld.Type()) == "vertex" && !a.NonNilF[fld.Name()] {
+						k := a.T.Obj().Name() + "." + fld.Name()
+						if _, ok := allMaybe[k]; !ok {
+							allMaybe[k] = gn + " symbol " + sym
+						}
+					}
+				}
+			}
+		}
+	}
 	c.CoverageExtra["formatter_nil_safety"] = map[string]interface{}{
 		"vertex_slots_that_can_be_nil_in_parsed_trees": len(maybeNil),
 		"embeddings_of_unknown_kind":                   anyEmbeds,
@@ -212,6 +245,18 @@ func (c *CheckCtx) checkFormatter(kinds []kindInfo) {
 		}
 	}
 	c.checkFormatListEmpty(f, prefix)
+	carrierStates := map[string]string{}
+	defer func() {
+		var xs []string
+		for k, v := range carrierStates {
+			xs = append(xs, k+" ("+v+")")
+		}
+		sort.Strings(xs)
+		if m, ok := c.CoverageExtra["formatter_nil_safety"].(map[string]interface{}); ok {
+			m["unguarded_slots_nil_only_in_intermediate_states"] = xs
+			m["unguarded_note"] = "slots the formatter dereferences without a nil test that are nil only in some non-terminal alternative that is never embedded as it stands (half-built carriers); not obligations - listed so that a reader can see what the embedding rule leaves out"
+		}
+	}()
 	for ki := range kinds {
 		k := &kinds[ki]
 		name := fmt.Sprintf("%s.(*formatter).%s", prefix, k.Name)
@@ -239,6 +284,8 @@ func (c *CheckCtx) checkFormatter(kinds []kindInfo) {
 				}
 				if why, can := maybeNil[k.Name+"."+slot]; can && !pathSaysNonNil(p, slot) {
 					nilBad = append(nilBad, fmt.Sprintf("n.%s.Accept(f) is called without a nil test, but a parsed tree can have %s.%s == nil (%s) [%s]", slot, k.Name, slot, why, pc))
+				} else if why2, can2 := allMaybe[k.Name+"."+slot]; !can && can2 && !pathSaysNonNil(p, slot) && !carrierOnly[k.Name+"."+slot] {
+					carrierStates[k.Name+"."+slot] = why2
 				}
 			}
 			for _, e := range p.Events {
